@@ -151,6 +151,16 @@ static BISHOP_MAGICS: [u64; 64] = [
     0x1194108202040410,
 ];
 
+/// The shift constant used for a square (the statics are private).
+#[cfg(flounder_verif)]
+pub fn verif_relevant_bits(bishop: bool, square: usize) -> usize {
+    if bishop {
+        BISHOP_RELEVANT_BITS[square]
+    } else {
+        ROOK_RELEVANT_BITS[square]
+    }
+}
+
 pub struct Magic {
     pub rook_attack_masks: [Bitboard; 64],
     pub bishop_attack_masks: [Bitboard; 64],
